@@ -96,6 +96,29 @@ Proof.
   rewrite <- IH1, <- IH2, app_assoc. split; reflexivity.
 Qed.
 
+(* no operator crosses a non-Stateless node *)
+Lemma segments_cons_ext : forall n c c',
+    segments c = segments c' -> segments (n :: c) = segments (n :: c').
+Proof.
+  intros n c c' H. destruct n as [b|lc rc k tl tr tout]; [destruct b|]; cbn [segments];
+    rewrite H; reflexivity.
+Qed.
+
+Lemma fuse_keeps_segments : forall c, segments (fuse c) = segments c.
+Proof.
+  induction c as [|n r IH]; [reflexivity|].
+  destruct n as [b|lc rc k tl tr tout]; [|cbn [fuse]; apply segments_cons_ext; exact IH].
+  destruct b as [s|ops|a b|cb tp tg tout lg|cb lf tin tout fo|t pl]; cbn [fuse];
+    try (apply segments_cons_ext; exact IH).
+  destruct (fuse r) as [|n' r'] eqn:E; [apply segments_cons_ext; exact IH|].
+  destruct n' as [b'|lc rc k tl tr tout]; [|apply segments_cons_ext; exact IH].
+  destruct b' as [s|ops'|a b|cb tp tg tout lg|cb lf tin tout fo|t pl];
+    try (apply segments_cons_ext; exact IH).
+  cbn [segments] in IH |- *. rewrite <- IH.
+  destruct (segments r') as [|seg rest]; [reflexivity|].
+  rewrite app_assoc. reflexivity.
+Qed.
+
 (* ---------------- fusion: sequential engine ---------------- *)
 
 Lemma seq_main_cons_ext : forall sh term n c c',
@@ -209,6 +232,25 @@ Proof.
   destruct n as [b|lc rc k tl tr tout]; [|left; reflexivity].
   destruct b as [s|ops|a b|cb tp tg tout lg|cb lf tin tout fo|t pl]; try (left; reflexivity).
   right. exists ops, (reorder_ops ops). repeat split. apply reorder_ops_perm.
+Qed.
+
+Lemma reorder_keeps_segments : forall c,
+    Forall2 (fun a b => Permutation a b) (segments c) (segments (reorder c)).
+Proof.
+  induction c as [|n r IH]; [cbn; constructor; [reflexivity|constructor]|].
+  change (reorder (n :: r))
+    with ((match n with NB (BStateless ops) => NB (BStateless (reorder_ops ops)) | _ => n end)
+            :: reorder r).
+  assert (Hother : Forall2 (fun a b => Permutation a b) ([] :: segments r)
+                           ([] :: segments (reorder r))).
+  { constructor; [reflexivity|exact IH]. }
+  destruct n as [b|lc rc k tl tr tout]; [|exact Hother].
+  destruct b as [s|ops|a b|cb tp tg tout lg|cb lf tin tout fo|t pl]; try exact Hother.
+  cbn [segments].
+  inversion IH as [Hl Hr|seg seg' rest rest' Hseg Hrest Hl Hr].
+  - constructor; [apply reorder_ops_perm|constructor].
+  - constructor; [|exact Hrest].
+    apply Permutation_app; [apply reorder_ops_perm|exact Hseg].
 Qed.
 
 Lemma reorder_pinned : forall ops,
